@@ -130,6 +130,38 @@ theorem nm_psum_colsums (ftol : Rat) (ndim : Nat) (s s' : NM) (tr : List EvN) (h
     s'.psum = getPsum id ndim s'.p :=
   nmStep_psum f hn hinv hps h
 
+/-- the stopping rule: when a pass returns, the fractional spread between a HIGHEST and a LOWEST
+    vertex value — computed as the source computes it, `2|y_hi - y_lo| / (|y_hi| + |y_lo| + TINY)`
+    with true differences, not differences of absolute values — is below `ftol`. -/
+theorem nm_exit_rule (ftol : Rat) (ndim : Nat) (s s' : NM) (pmin : Pt) (fmin m : Rat) (hn : 2 ≤ s.y.length)
+    (h : nmStep rnd f ftol ndim s = .done pmin fmin s' m) :
+    ∃ ihi ilo, ihi < s.y.length ∧ ilo < s.y.length ∧
+      (∀ j, j < s.y.length → s.y.getD ilo 0 ≤ s.y.getD j 0 ∧ s.y.getD j 0 ≤ s.y.getD ihi 0) ∧
+      rnd (rnd (2 * rabs (rnd (s.y.getD ihi 0 - s.y.getD ilo 0))) /
+        rnd (rnd (rabs (s.y.getD ihi 0) + rabs (s.y.getD ilo 0)) + rnd TINYN)) < ftol := by
+  obtain ⟨hlo, hhi, hmin⟩ := scan_ok hn
+  refine ⟨(scan s.y).ihi, (scan s.y).ilo, hhi, hlo, fun j hj => ⟨hmin j hj, scan_hi s.y j hj⟩, ?_⟩
+  unfold nmStep at h
+  dsimp only at h
+  split_ifs at h with h1
+  exact h1
+
+/-- … in exact arithmetic: `2·(max y − min y) < ftol·(|max y| + |min y| + TINY)` on return. -/
+theorem nm_exit_rule_exact (ftol : Rat) (ndim : Nat) (s s' : NM) (pmin : Pt) (fmin m : Rat) (hn : 2 ≤ s.y.length)
+    (h : nmStep id f ftol ndim s = .done pmin fmin s' m) :
+    ∃ ihi ilo, (∀ j, j < s.y.length → s.y.getD ilo 0 ≤ s.y.getD j 0 ∧ s.y.getD j 0 ≤ s.y.getD ihi 0) ∧
+      2 * (s.y.getD ihi 0 - s.y.getD ilo 0) < ftol * (|s.y.getD ihi 0| + |s.y.getD ilo 0| + TINYN) := by
+  obtain ⟨ihi, ilo, h1, h2, h3, h4⟩ := nm_exit_rule id f ftol ndim s s' pmin fmin m hn h
+  refine ⟨ihi, ilo, h3, ?_⟩
+  simp only [id, rabs_eq] at h4
+  have hpos : 0 < |s.y.getD ihi 0| + |s.y.getD ilo 0| + TINYN := by
+    have : 0 < TINYN := by unfold TINYN; norm_num [K.tinyNM]
+    positivity
+  rw [div_lt_iff₀ hpos] at h4
+  have hle := (h3 ilo h2).2
+  rw [abs_of_nonneg (by linarith)] at h4
+  exact h4
+
 /-- the loop: values stay consistent with the vertices; whatever bound some vertex value met at
     the start, the reported minimum meets; the result is vertex 0 and best-first -/
 theorem nmLoop_spec {ftol : Rat} {ndim : Nat} : ∀ (n : Nat) (s s' : NM) (pmin : Pt) (fmin m : Rat) (t : List EvN),
@@ -245,6 +277,20 @@ theorem runArg_value_semantics (rnd : Rat → Rat) (f : Pt → Rat) (obj : NM) (
 theorem restart_own_simplex (rnd : Rat → Rat) (f : Pt → Rat) (obj : NM) (ftol : Rat) (fuel : Nat) :
     runArg rnd f obj ftol fuel .own = nelderMead rnd f ftol obj.p fuel := by
   rw [runArg_value_semantics]; rfl
+
+/-- re-entrancy: the outer run of a nested minimisation is the plain run on the function
+    `x ↦ inner fmin`; so it is never worse than any vertex of its initial simplex and reports the
+    objective at the returned point — whatever the inner runs do. -/
+theorem nelderMeadNested_best (rnd : Rat → Rat) (g : Pt → Rat) (ftolOut : Rat) (start : Pt) (delta ftolIn : Rat) (t0 : Pt)
+    (deltaIn : Rat) (fuel : Nat) (pmin : Pt) (fmin m : Rat) (s : NM) (t : List EvN)
+    (h : nelderMeadNested rnd g ftolOut start delta ftolIn t0 deltaIn fuel = some (.ok pmin fmin s m, t)) :
+    let F := fun x => (nestedObjective rnd g ftolIn t0 deltaIn fuel x).getD 0
+    s.y = s.p.map F ∧ fmin = F pmin ∧ ∀ v ∈ simplexOf rnd start (List.replicate start.length delta), F pmin ≤ F v := by
+  intro F
+  unfold nelderMeadNested at h
+  rw [nelderMeadDelta_eq, nelderMeadDeltas_eq rnd F ftolOut start _ fuel (by simp)] at h
+  obtain ⟨a, b, _, _, _, g'⟩ := nelderMead_best rnd F ftolOut _ fuel pmin fmin m s t h
+  exact ⟨a, b, g'⟩
 
 /-! ## non-vacuity: concrete runs that terminate with `ok` (so the hypotheses are met) -/
 
